@@ -43,5 +43,10 @@ if BEGIN in s:
     s = s[:s.index(BEGIN)] + block + s[s.index(END) + len(END):]
 else:
     s = s.rstrip() + "\n\n" + block + "\n"
+mm = os.path.join(V, "seeded", "model_mutants.md")
+if os.path.exists(mm) and "<!-- BEGIN MODELMUT -->" in s:
+    tab = open(mm).read()
+    tab = tab[tab.index("| model file"):tab.index("## Survivors")].strip()
+    s = re.sub(r"<!-- BEGIN MODELMUT -->.*?<!-- END MODELMUT -->", lambda m: "<!-- BEGIN MODELMUT -->\n" + tab + "\n<!-- END MODELMUT -->", s, flags=re.S)
 open(p, "w").write(s)
 print("DESIGN.md sections 10.3/10.4 regenerated")
